@@ -698,6 +698,34 @@ func (e *SpecEnv) call(n *ast.CallExpr) TV {
 	case "tag":
 		return TV{T: "(itag " + arg(0).T + ")", Ty: types.NewPointer(types.NewStruct(nil, nil))}
 	}
+	// library function modelled as an uninterpreted pure function (strings.HasPrefix ...):
+	// the same symbol the code's own call to it is given
+	if sel, ok := n.Fun.(*ast.SelectorExpr); ok {
+		if pid, ok := sel.X.(*ast.Ident); ok {
+			for _, imp := range vc.ctx.tpkg.Imports() {
+				if imp.Name() != pid.Name || !pureUFPkgs[imp.Path()] {
+					continue
+				}
+				fn, _ := imp.Scope().Lookup(sel.Sel.Name).(*types.Func)
+				if fn == nil {
+					break
+				}
+				sig := fn.Type().(*types.Signature)
+				if sig.Results().Len() != 1 || sig.Params().Len() != len(n.Args) || sig.Variadic() {
+					e.fail("%s: unsupported library function shape", exprString(n.Fun))
+				}
+				var sorts, as []string
+				for i := range n.Args {
+					pt := sig.Params().At(i).Type()
+					a := e.coerce(arg(i), pt)
+					sorts = append(sorts, vc.sortOf(pt))
+					as = append(as, a.T)
+				}
+				rt := sig.Results().At(0).Type()
+				return TV{T: vc.uf(imp.Path()+"."+sel.Sel.Name, sorts, vc.sortOf(rt), as...), Ty: rt}
+			}
+		}
+	}
 	// spec function?
 	if sp, ok := vc.ctx.cf.Specs[name]; ok && sp.Macro {
 		if len(n.Args) != len(sp.Params) {
